@@ -2,6 +2,7 @@ package bgp
 
 import (
 	"fmt"
+	"sort"
 
 	"github.com/bio-routing/bio-rd/route"
 )
@@ -50,7 +51,101 @@ func genC10Direct(seed uint64) *Plan {
 	return g.plan
 }
 
-type c10DirectOracle struct{ ops int }
+type c10DirectOracle struct {
+	ops int
+	// model of what the operations left advertised (C11 plans: accept-all export policy, every
+	// candidate exportable): per session and prefix, candidate -> number of copies added
+	model map[int]map[Prefix]map[int]int
+}
+
+// genC11Direct: the same direct operations judged against the operations themselves: a removal
+// withdraws the path it names (under the identifier that path was announced with) and no other.
+// Candidates include twins that differ in nothing but one standard community (their tag).
+func genC11Direct(seed uint64) *Plan {
+	pl := genC10Direct(seed)
+	pl.Prop = "C11"
+	r := propRand("C11D", seed)
+	for i := range pl.Peers {
+		pl.Peers[i].Export = AcceptAll()
+		if r.Chance(0.7) {
+			pl.Peers[i].AddPathTX, pl.Peers[i].PeerAddPath = uint(2+r.Intn(3)), pl.Peers[i].PeerAddPath|1
+		}
+	}
+	// twins: candidate k+1 equals candidate k except for the tag community build() gives it
+	for k := 0; k+1 < len(pl.Cands); k += 2 {
+		if r.Chance(0.6) {
+			pl.Cands[k+1] = pl.Cands[k]
+		}
+	}
+	return pl
+}
+
+func (o *c10DirectOracle) note(s *Step, bestOnly bool) {
+	if o.model == nil {
+		o.model = map[int]map[Prefix]map[int]int{}
+	}
+	if o.model[s.Peer] == nil {
+		o.model[s.Peer] = map[Prefix]map[int]int{}
+	}
+	m := o.model[s.Peer][s.Pfx[0]]
+	if m == nil {
+		m = map[int]int{}
+		o.model[s.Peer][s.Pfx[0]] = m
+	}
+	switch {
+	case s.Label == "add" && bestOnly:
+		for k := range m {
+			delete(m, k)
+		}
+		m[s.N] = 1
+	case s.Label == "add":
+		m[s.N]++
+	case m[s.N] > 0:
+		m[s.N]--
+		if m[s.N] == 0 {
+			delete(m, s.N)
+		}
+	}
+}
+
+// checkOps (C11 plans, at checkpoints): the candidates the neighbour holds per prefix are the ones
+// the operations left there.
+func (o *c10DirectOracle) checkOps(w *World) {
+	for pi, p := range w.Peers {
+		est, _ := w.DUT.EstablishedFSM(p)
+		if est == nil || est.Con != p.conn || !p.Established() {
+			continue
+		}
+		fam := famOf(est, false)
+		if fam == nil || fam.Queued != 0 {
+			continue
+		}
+		got := map[Prefix][]int{}
+		for k, a := range p.View {
+			for _, c := range a.Communities {
+				if c&0xff000000 == 0xfd000000 {
+					got[k.Pfx] = append(got[k.Pfx], int(c&0xffffff))
+				}
+			}
+		}
+		want := map[Prefix][]int{}
+		for pfx, m := range o.model[pi] {
+			for c, n := range m {
+				if n > 0 {
+					want[pfx] = append(want[pfx], c)
+				}
+			}
+		}
+		for _, pfx := range w.Plan.pfxPool() {
+			g, wn := got[pfx], want[pfx]
+			sort.Ints(g)
+			sort.Ints(wn)
+			if fmt.Sprint(g) != fmt.Sprint(wn) {
+				w.Env.Violate("C11", "withdrawal_names_another_path", "peer %s %s: the AddPath / RemovePath operations on its Adj-RIB-Out left candidates %v advertised, the neighbour holds %v (a removal withdrew a path other than the one it named, or under another identifier)", p.Cfg.Name, pfx, wn, g)
+			}
+		}
+	}
+}
 
 func (o *c10DirectOracle) Init(w *World) {
 	w.Data["exec:out_op"] = func(w *World, i int, s *Step) {
@@ -70,6 +165,7 @@ func (o *c10DirectOracle) Init(w *World) {
 		path := w.Plan.Cands[s.N].build(s.N)
 		path.BGPPath.BGPPathA.EBGP = true // learned from elsewhere: exportable to iBGP and eBGP neighbours alike
 		o.ops++
+		o.note(s, !fam.AddPathTX)
 		if s.Label == "add" {
 			w.Go(fmt.Sprintf("AdjRIBOut[%s].AddPath", p.Cfg.Name), func() { out.AddPath(pfx, path) })
 		} else {
@@ -78,7 +174,11 @@ func (o *c10DirectOracle) Init(w *World) {
 		w.Env.Sim.Settle()
 	}
 }
-func (o *c10DirectOracle) AfterStep(w *World, i int, s *Step) {}
+func (o *c10DirectOracle) AfterStep(w *World, i int, s *Step) {
+	if s.Kind == "checkpoint" && w.Plan.Prop == "C11" {
+		o.checkOps(w)
+	}
+}
 func (o *c10DirectOracle) Final(w *World) {
 	if o.ops > 0 {
 		w.Env.probeN("direct_adjribout_operation", o.ops)
@@ -87,7 +187,40 @@ func (o *c10DirectOracle) Final(w *World) {
 
 var _ = route.BGPPathType
 
+// pfxPool: the prefixes the plan's steps mention.
+func (p *Plan) pfxPool() []Prefix {
+	seen := map[Prefix]bool{}
+	var out []Prefix
+	for _, s := range p.Steps {
+		for _, x := range s.Pfx {
+			if !seen[x] {
+				seen[x] = true
+				out = append(out, x)
+			}
+		}
+	}
+	sortPrefixes(out)
+	return out
+}
+
 func init() {
+	c11b := bgpProps["C11"]
+	bgpProps["C11"] = propDef{
+		Setup: c11b.Setup, Twin: c11b.Twin, KeepStep: c11b.KeepStep,
+		Gen: func(seed uint64) *Plan {
+			if (seed>>1)%5 == 0 {
+				return genC11Direct(seed)
+			}
+			return c11b.Gen(seed)
+		},
+		Oracles: func(p *Plan) []Oracle {
+			os := c11b.Oracles(p)
+			if p.Params["direct"] == 1 {
+				os = append([]Oracle{&c10DirectOracle{}}, os...)
+			}
+			return os
+		},
+	}
 	c10b := bgpProps["C10"]
 	bgpProps["C10"] = propDef{
 		Setup: c10b.Setup, Twin: c10b.Twin,
